@@ -149,3 +149,95 @@ def install(w):
             raise Unsupported('rng generate of ' + str(ty))
         return ex.fresh_int(ty, 'random')
     M['<_ as Rng>::generate'] = rng_generate
+
+
+# ---------------------------------------------------------------------------------------
+# files: File / BufReader over a symbolic byte string held in ex.env['file_bytes']
+# ---------------------------------------------------------------------------------------
+
+class FileModel:
+    model_name = 'File'
+
+    def __init__(self, data):
+        self.data = data
+        self.pos = 0
+
+
+class StringModel:
+    """String / Vec<u8> of symbolic bytes"""
+    model_name = 'String'
+
+    def __init__(self, items=None):
+        self.items = list(items or [])
+
+    def clone_model(self, ex=None):
+        return StringModel(self.items)
+
+    def empty_like(self):
+        return StringModel()
+
+    def __repr__(self):
+        return 'String%r' % (self.items,)
+
+
+def install_files(w):
+    from .executor import Unsupported
+    from .models import ok, err
+    from .models_coll import VecModel
+    M = w.models
+
+    def file_open(ex, c, a):
+        data = ex.env.get('file_bytes')
+        if data is None:
+            raise Unsupported('File::open without a file model')
+        return ok(FileModel(data))
+    M['File::open'] = file_open
+    M['File::metadata'] = lambda ex, c, a: ok(deref(a[0]))
+    M['Metadata::len'] = lambda ex, c, a: Int('u64', len(deref(a[0]).data))
+    M['BufReader::new'] = lambda ex, c, a: a[0]
+    M['BufReader::with_capacity'] = lambda ex, c, a: a[1]
+    M['String::new'] = lambda ex, c, a: StringModel()
+    M['default:String'] = lambda ex, ty: StringModel()
+
+    def seek(ex, c, a):
+        f = deref(a[0])
+        sf = a[1]
+        off = ex.concretize(sf.fields[0])
+        if sf.variant == 'Start':
+            f.pos = off
+        elif sf.variant == 'Current':
+            f.pos += off
+        else:
+            f.pos = len(f.data) + off
+        if f.pos < 0:
+            return err(Opaque('io::Error'))
+        return ok(Int('u64', f.pos))
+    M['<BufReader as Seek>::seek'] = seek
+    M['<File as Seek>::seek'] = seek
+
+    def read_until(ex, c, a):
+        f = deref(a[0])
+        delim = a[1]
+        buf = deref(a[2])
+        n = 0
+        while f.pos < len(f.data):
+            b = f.data[f.pos]
+            f.pos += 1
+            n += 1
+            buf.items.append(b)
+            if ex.branch(ex.binop('Eq', b, delim), 'byte == delimiter'):
+                break
+        return ok(Int('usize', n))
+    M['<BufReader as BufRead>::read_until'] = read_until
+
+    def read_line(ex, c, a):
+        return read_until(ex, c, [a[0], Int('u8', 10), a[1]])
+    M['<BufReader as BufRead>::read_line'] = read_line
+
+
+_old_install = install
+
+
+def install(w):      # noqa: F811
+    _old_install(w)
+    install_files(w)
